@@ -6,6 +6,11 @@ ids = [p['id'] for p in props]
 
 # id -> (category, technique, text, note, design_ref)
 CHECKS = {
+ 'C18': ('exploration',
+         'model-based property testing over generated projects through the real binary, with permutation metamorphism over the source arguments',
+         'Generated directory layouts of QML files with arbitrary import-by-string and root-type relations (chains, mutually importing directories, mutually inheriting and self-inheriting components present, missing bases, invalid uses) are translated by the real qmluic binary once per order of the source arguments, each in a fresh copy; every run must terminate with status 0/1, status and written bytes must not depend on the order, valid projects must list exactly the instantiated components under <customwidgets> (class, type of the component\'s own root object, file-name-rule header) and keep base-class properties on instances, invalid uses must be rejected.',
+         'Acceptance is predicted by a visibility model written in the harness (own directory + directories imported by the file); name clashes across directories are not generated. Termination is judged by watchdog with confirmation.',
+         'DESIGN.md section 3 C18'),
  'C15': ('fault_enumeration',
          'model-based file-system property testing over generated projects and histories, plus enumerated injected kills at every output-touching system call',
          'Generated scratch projects (path shapes, output-directory forms, file-name rule, binding mode, cwd) are run through the real qmluic binary and the tree difference is compared with the path model of the statement and with the in-process translation; generated edit/regenerate histories check that current outputs keep inode and mtime; for the kill clause a tracing run enumerates every system call that touches an output and the run is repeated once per call with SIGKILL delivered on entry to exactly that call (strace inject), after which each output must hold its complete old or complete new bytes.',
